@@ -254,6 +254,16 @@ def run(ctx):
             {"name": "bound2-core", "cases": [c for c in cases if c in CORE2], "bound": 2, "free_bound": 1},
         ]
     st, phase_summ = dfs.explore_phases(ctx, MOD, "run_case", phases)
+    # part 2: the real asyncore dispatcher's write path over a scripted socket (vf/props/c11_dispatcher.py)
+    from vf.props import c11_dispatcher as DSP
+    dst, dsumm = dfs.explore_phases(ctx, DSP.MOD, "run_disp", [{"name": "socket-write-path", "cases": DSP.cases_for(ctx.tier),
+                                                               "bound": 1 if ctx.quick else 2, "free_bound": 2}], chunksize=2)
+    phase_summ = phase_summ + dsumm
+    st.executions += dst.executions
+    st.points += dst.points
+    st.capped = st.capped or dst.capped
+    if len(st.observations) < 400000:
+        st.observations.update(("socket", o) for o in dst.observations)
     p1 = run_case(cases[0], (0, {}))
     p2 = run_case(cases[0], (0, {}))
     if p1 != p2:
@@ -279,11 +289,16 @@ def run(ctx):
     ctx.assume("scheduling points: CLock/CQueue operations, thread spawn/exit, PY_START of functions in yowsup/layers/** and "
                "consonance protocol/transport/streams (entity and codec modules excluded)")
     ctx.assume("handshake runs on the default schedule before the senders start (C04 explores handshake interleavings)")
+    ctx.assume("socket part: statement-level scheduling points inside yowsup's asyncore dispatcher and asyncore's write path; the socket is "
+               "scripted (takes a prefix of a write, or nothing, then everything); one sender at a time, as under the segments layer's lock")
 
 
 def replay(ctx, case):
     case = dict(case)
     pf = dfs.schedule_from_case(case)
     case.pop("schedule", None)
+    if "budgets" in case:
+        from vf.props import c11_dispatcher as DSP
+        return DSP.run_disp(case, pf)[1]
     pts, v, obs = run_case(case, pf)
     return v
